@@ -64,6 +64,7 @@ Definition py_eqb (a b : value) : bool :=
     | VStr s, VStr t => str_eqb s t
     | VNone, VNone => true
     | VOther _ s, VOther _ t => N.eqb s t
+    | VFloatX j, VFloatX k => N.eqb j k && negb (N.eqb j 2)   (* inf == inf, nan != nan *)
     | _, _ => false
     end
   | _, _ => false
